@@ -51,9 +51,21 @@ def make_group(rng, with_time, size=36, dom_max=28):
         dd = date.fromordinal(o)
         if dd.day <= dom_max and 1601 <= dd.year <= 4095:
             y, m, d = dd.year, dd.month, dd.day
+    elif k < .4:
+        # a day of an ISO week 53 (most years have none: week differences must borrow 52 or 53)
+        for yy in range(y, min(y + 12, 4094)):
+            if date(yy, 12, 28).isocalendar()[1] == 53:
+                o = date(yy, 12, 28).toordinal()
+                o -= (o - 1) % 7
+                cands = [date.fromordinal(o + i) for i in range(7)]
+                cands = [dd for dd in cands if dd.day <= dom_max and dd.year <= 4095]
+                if cands:
+                    dd = rng.choice(cands)
+                    y, m, d = dd.year, dd.month, dd.day
+                break
     c = ep(date(y, m, d).toordinal(), rng.choice([0, 1, 43200, 86399, rng.randrange(86400)]) if with_time else 0)
     out = {c}
-    offs_d = list(range(-9, 10)) + [-40, -31, -30, -29, -28, 27, 28, 29, 30, 31, 59, 60, 61, 365, 366, 367, -365, -366,
+    offs_d = list(range(-9, 10)) + [-40, -31, -30, -29, -28, 27, 28, 29, 30, 31, 59, 60, 61, 365, 366, 367, -365, -366, 364, 371, 728, 735, -364, -371,
                                     1461, 36524, 146097, -36525]
     offs_s = [1, 59, 60, 61, 3599, 3600, 3601, 86399, 86400, 86401, 604799, 604800, 604801]
     tries = 0
